@@ -93,8 +93,12 @@ def deleteColumn (g : Grid) (x : Int) : Grid :=
 
 /-! bulk setters: coordinates are resolved once, then cell after cell -/
 
-def setLine (g : Grid) (xn yn : Nat) (line : List (Nat × Nat)) : Grid :=
-  (line.foldl (fun (acc : Grid × Nat) (c : Nat × Nat) => (setCellN acc.1 acc.2 yn c.1 c.2, acc.2 + c.2)) (g, xn)).1
+/-- what a line of cells (value, repeat) does to one row: slice assignments from column `xn` on,
+    each cell advancing by its repeat count -/
+def lineF (line : List (Nat × Nat)) (xn : Nat) (r : List Nat) : List Nat :=
+  (line.foldl (fun (acc : List Nat × Nat) (c : Nat × Nat) => (setSlice (padRow acc.1 acc.2) acc.2 c.2 c.1, acc.2 + c.2)) (r, xn)).1
+
+def setLine (g : Grid) (xn yn : Nat) (line : List (Nat × Nat)) : Grid := editRowN g yn (lineF line xn)
 
 def setCells (g : Grid) (x y : Int) (m : List (List (Nat × Nat))) : Grid :=
   let xn := norm x g.ncols
